@@ -143,5 +143,8 @@ def c07(ck, replay=None):
                        server_items(ck, 250 if thorough else 50, 8 if thorough else 4, salt=47))
     server_l2(ck, 'TLC behaviours steered into Server (cancel inside the gather thread\'s check/set window)', 3, 1,
               150 if thorough else 30, ('Trap_CancelBetweenCheckAndSet', 'Trap_CancelInWindowWhileWaiter'))
+    from checks.lifecycle import shutdown_after_abandonment
+    shutdown_after_abandonment(ck, 'real Server(ProcessServlet): shutdown and re-entry after abandoned requests with inputs '
+                                   'beyond the pipe buffer')
     ck.finish_rc = ck.finish(rule='deadlines comparable to service times under bounded-lag adversarial virtual time; '
                              'every order of {deadline, cancel} vs {pop, check, set} is a path of the model')
